@@ -31,4 +31,4 @@ for d in seeded/*/; do
   tier=$(jq -r '.tier // "quick"' "$d/meta.json")
   [ -f "$d/patch.diff" ] && run "$id" "$d/patch.diff" "$tier"
 done
-mv "$OUT.tmp" "$OUT"
+mv "$OUT.tmp" "$OUT"; tools/muttest.sh --clean
